@@ -137,7 +137,7 @@ func main() {
 		run.Truncated("stopped at a non-terminating computation in the library")
 		run.Finish()
 	}
-	run.Rule("complete key exchanges of the real client against reference server R3 (default schedule under the controlled scheduler), followed by the first encrypted request: (a) server alphabets pq(4) x RSA key(3) x group(2) x server_nonce leading-zero class(3) x g_a class(2) x inner-data padding(16) x fingerprint list(3) at <=2 deviations; (b) every client seed in [0,K) of the owned random stream; (c) each of nonce, new_nonce, RSA ciphertext, auth key g^ab, new_nonce_hash1 forced to 1 and 2 leading zero bytes, and the initial salt forced to 1, 2 and 8 leading zero bytes (nonces sharing a prefix) (client draws forced through the owned seam; server secret chosen adaptively after learning g_b); a committed seed table for g_b; non-trivial = the exchange reached dh_gen_ok")
+	run.Rule("complete key exchanges of the real client against reference server R3 (default schedule under the controlled scheduler), followed by the first encrypted request: (a) server alphabets pq(4) x RSA key(3) x group(2) x server_nonce leading-zero class(3) x g_a class(2) x inner-data padding(16) x fingerprint list(3) at <=2 deviations; (b) every client seed in [0,K) of the owned random stream; (c) each of nonce, new_nonce, RSA ciphertext, auth key g^ab, new_nonce_hash1 forced to 1 and 2 leading zero bytes, and the initial salt forced to 1, 2 and 8 leading zero bytes (nonces sharing a prefix) (client draws forced through the owned seam; server secret chosen adaptively after learning g_b); g_b forced to 1 and 2 leading zero bytes in both groups (the client's exponent forced through the owned seam); a committed seed table for g_b; non-trivial = the exchange reached dh_gen_ok")
 	run.Assume("reference server R3 (harness/ref/authsrv) with committed RSA-2048 test keys; the client's random draws (nonces, DH exponent, Pollard-rho draws, padding) come from the owned deterministic stream", "leading-zero class coverage is measured and reported (class table), not assumed")
 	r := &runner{run: run, table: classTable{}}
 	base := hs.Base()
@@ -240,6 +240,39 @@ func main() {
 		r.exchange(fmt.Sprintf("forced nonce lz=%d", lz), base, 7, [][]byte{n, newNonce0}, fmt.Sprintf("forced|nonce-lz%d", lz))
 		nn := append(make([]byte, lz), newNonce0[lz:]...)
 		r.exchange(fmt.Sprintf("forced new_nonce lz=%d", lz), base, 7, [][]byte{nonce0, nn}, fmt.Sprintf("forced|new_nonce-lz%d", lz))
+	}
+	// g_b with 1 and 2 leading zero bytes (its TL string is 255 / 254 bytes long: 254 is the first length that
+	// needs the long string header): the client's secret exponent b is forced through the owned seam (the
+	// 256-byte draw of crypto/rand.Int for the bound 2^2048), found by deterministic upward search
+	for _, g := range []struct {
+		p *big.Int
+		g int64
+		n string
+	}{{hs.HexBig(hs.TelegramPrime), 3, "telegram"}, {hs.HexBig(hs.RFC3526Group14), 2, "rfc3526-14"}} {
+		for _, lz := range []int{1, 2} {
+			b := big.NewInt(70000)
+			gb := big.NewInt(g.g)
+			found := false
+			for i := 0; i < 3000000; i++ {
+				b.Add(b, big.NewInt(1))
+				if hs.LZ(authsrv.Fixed(new(big.Int).Exp(gb, b, g.p), 256)) == lz {
+					found = true
+					break
+				}
+			}
+			if !found {
+				run.Add("forced_gb_search_exhausted", 1)
+				continue
+			}
+			cfg := base
+			cfg.Prime, cfg.G = g.p, int32(g.g)
+			wx := r.exchange(fmt.Sprintf("forced g_b lz=%d (%s group, b=%s)", lz, g.n, b), cfg, 7, [][]byte{nonce0, newNonce0, authsrv.Fixed(b, 256)}, fmt.Sprintf("forced|g_b-lz%d", lz))
+			if wx.Auth == nil || wx.Auth.GB == nil || hs.LZ(authsrv.Fixed(wx.Auth.GB, 256)) != lz {
+				// the exponent was not drawn the way the seam expects (length of the draw changed): the corner
+				// was not reached in this run; the class table shows it
+				run.Add("forced_gb_corner_not_reached", 1)
+			}
+		}
 	}
 	// new_nonce and server_nonce beginning with the same byte(s): the initial salt new_nonce[0:8] xor
 	// server_nonce[0:8] then begins with zero bytes although neither nonce does
